@@ -19,6 +19,9 @@ def _sid(gen, vt, victim_is_server):
     peer_parity = 1 if victim_is_server else 0      # ids the stub (peer of victim) may open
     k = rng.randrange(12)
     live = [s for s in vt.streams.values()]
+    hot = getattr(gen, 'hot_ids', {}).get('s' if victim_is_server else 'c')
+    if hot and rng.random() < 0.15:
+        return rng.choice(hot)          # an id the victim's application named in a call that was refused
     if getattr(gen, 'adv_new_streams', 0) and rng.random() < gen.adv_new_streams:
         return vt.hi_peer + 2 if vt.hi_peer else (1 if peer_parity else 2)
     if k <= 3 and live:
@@ -149,6 +152,18 @@ def draw(gen):
             fr.append(C.mk_continuation(sid, piece, last and rng.random() < 0.8))
         raw = b''.join(f.serialize() for f in fr)
         return {'ev': 'inject', 'dir': d, 'pos': pos, 'bytes': raw}
+    if 0.6 <= r_special < 0.6 + gen.P.get('adv_ack_big', 0.02) and not vt.closed and vt.sent_settings:
+        # the acknowledgement of a SETTINGS frame that lowers MAX_FRAME_SIZE, and right behind it a frame that only
+        # fits the old limit (also: one that fits the new one exactly)
+        new_mf = dict(vt.sent_settings[0]).get(C.S_MAX_FRAME_SIZE)
+        old_mf = vt.mine[C.S_MAX_FRAME_SIZE]
+        if new_mf is not None and 16384 <= new_mf < old_mf <= 2 ** 20:
+            n = rng.choice([new_mf, new_mf + 1, old_mf, (new_mf + old_mf) // 2])
+            big = C.mk(rng.choice([0x20, 0xfe]), 0, 0, b'\x00' * n)
+            raw = C.mk_settings((), ack=True).serialize() + big.serialize()
+            if spans:
+                pos = spans[0][0]
+            return {'ev': 'inject', 'dir': d, 'pos': pos, 'bytes': raw}
     if 0.5 <= r_special < 0.5 + gen.P.get('adv_ping_flood', 0.01) and not vt.closed:
         n = rng.choice([2, 3, 10, 63, 64, 65, 66, 129, 400])
         raw = b''.join(C.mk_ping(i.to_bytes(4, 'big') + b'fld' + bytes([rng.randrange(256)]), rng.random() < 0.1).serialize()
@@ -255,6 +270,9 @@ def draw(gen):
         frag, desc = _block(gen, stub, rng.choice(['request', 'request', None]))
         promised = rng.choice([vt.hi_peer + 2 if vt.hi_peer % 2 == 0 and vt.hi_peer else 2, 2, 4, 3, sid, MAXID - 1, 0,
                                max((s.sid for s in vt.streams.values() if s.sid % 2 == 0), default=0) + 2])
+        used = [s.sid for s in vt.streams.values() if s.sid % 2 == 0]
+        if used and rng.random() < 0.35:
+            promised = rng.choice(used)         # an id promised before (reserved, in use, reset or finished by now)
         frames.append(C.mk_push_promise(sid, promised, frag, True, rng.choice([None, None, 0, 3])))
     elif t == C.PING:
         frames.append(C.mk_ping(bytes(rng.randrange(256) for _ in range(8)), rng.random() < 0.3))
